@@ -152,11 +152,11 @@ PROPS["C13"] = {
     "level": "proof",
     "technique": "Lean 4 model of the congruential generator (primality of the modulus, range, injectivity of the step, determinism after seeding), of the conditioning step and of the final clamp of bounded Gaussian draws; exact differential correspondence of the generator stream; seed-reproducibility, seed/rank sensitivity, conditioning at data and bound membership observed on the real simulators",
     "level_text": "Partial proof: generator facts, determinism, exact conditioning at data (given exact kriging weights, C02) and bound membership of clamped draws are theorems; the generator stream of the library is compared exactly with the model; turning bands (conditional and not) and FFT simulators are run twice per seed (bit-identical), with different seeds / ranks (different), with targets on data (datum reproduced); bounded Gaussian draws are checked to lie in their bounds exactly, including bounds a few ulps apart.",
-    "level_note": "Trusted: Lean kernel + 3 standard axioms; the simulators themselves are not modelled (only the generator, the conditioning formula and the clamp); SPDE, Gibbs and plurigaussian simulators are not yet exercised; the std::mt19937 'new style' generator is library code.",
-    "rule": "40 seeds (below / above the modulus, near 2^31, non-positive, multiples of the modulus) x 300 draws compared exactly with the model; 60 bound sets x 2000 bounded Gaussian draws; per generated model (1-2D, 1-3 nested structures): turning bands twice with the same seed after unrelated generator use, with another seed, several ranks, FFT twice, conditional turning bands with targets on the data. distinct = distinct request line",
+    "level_note": "Trusted: Lean kernel + 3 standard axioms; the simulators themselves are not modelled (only the generator, the conditioning formula and the clamp); the Gibbs sampler (bounds of every sample, with selections) and conditional plurigaussian simulation (facies at data, one or two underlying fields, several simulations) are exercised; the SPDE simulator is not; the std::mt19937 'new style' generator is library code.",
+    "rule": "40 seeds (below / above the modulus, near 2^31, non-positive, multiples of the modulus) x 300 draws compared exactly with the model; 60 bound sets x 2000 bounded Gaussian draws; per generated model (1-2D, 1-3 nested structures): turning bands twice with the same seed after unrelated generator use, with another seed, several ranks, FFT twice, conditional turning bands with targets on the data; 30 / 400 configurations of the Gibbs sampler under per-sample intervals and of conditional plurigaussian simulation. distinct = distinct request line",
     "trivial": lambda line: False,
     "trusted_base": TB_COMMON,
-    "uncovered": ["simulateSPDE, gibbs_sampler, simpgs/simbipgs (facies at data) are not exercised yet", "floating-point rounding inside law_gaussian_between_bounds before the clamp"],
+    "uncovered": ["simulateSPDE and simbipgs are not exercised; the Gibbs and plurigaussian simulators are exercised (bounds, facies at data, reproducibility), not modelled", "floating-point rounding inside law_gaussian_between_bounds before the clamp"],
     "assumptions": [],
 }
 
@@ -267,7 +267,7 @@ PROPS["C04"] = {
     "technique": "Lean 4 theorems giving, for each pair of code paths, the reason why the answers coincide in the model (a moving neighbourhood where no limit binds selects every candidate; leave-one-out weights and estimate from one column of the inverse of the complete system, any size; dual = primal; one-point block average = point value; k-NN specification) + differential correspondence: both paths of the real library run on the same generated input and compared by the Lean driver (2^-20 of the scale), ties of nearest samples decided in exact integer arithmetic and skipped",
     "level_text": "Partial proof: the algebraic identities behind unique=moving, cross-validation=leave-one-out, dual=primal and block(1 point)=point are theorems for all sizes; optimised covariance matrices, the ball tree, the algebraic calculator (KrigingCalcul) and the equality of the two paths of the library are tied by the differential run only. Collocated cokriging and the Bayesian form of the calculator are not exercised yet.",
     "level_note": "Trusted: Lean kernel + 3 standard axioms; for block kriging only the estimates are compared: the block variance term C(v,v) is evaluated by design between the regular discretisation and a randomly shifted copy (never C(0)), so the standard deviation differs from point kriging even with one discretisation point.",
-    "rule": "random configurations (1-3D, 1-2 variables, known mean / order 0-1 drift, 6-14 samples, 3 off-lattice targets): covariance matrix optimised vs plain vs pairwise; unique vs wide moving neighbourhood; xvalid vs explicit leave-one-out (order <= 0); migrate ball tree vs exhaustive; moving neighbourhood ball tree vs standard (nmaxi nearest, no sector); block(1 point) vs point; KrigingCalcul primal and dual vs kriging. distinct = distinct request line",
+    "rule": "random configurations (1-3D, 1-2 variables, known mean / order 0-1 drift, 6-14 samples, 3 off-lattice targets): covariance matrix optimised vs plain vs pairwise; unique vs wide moving neighbourhood; xvalid vs explicit leave-one-out (order <= 0); migrate ball tree vs exhaustive; moving neighbourhood ball tree vs standard (nmaxi nearest, no sector), then again with the same neighbourhood and data-base objects after the data locations have been exchanged in place; block(1 point) vs point; KrigingCalcul primal and dual vs kriging. distinct = distinct request line",
     "trivial": lambda line: False,
     "trusted_base": TB_COMMON,
     "uncovered": ["collocated cokriging vs augmented data", "Bayesian and cross-validation forms of KrigingCalcul", "the ball-tree algorithm itself (specified, not modelled)"],
@@ -283,9 +283,9 @@ PROPS["C05"] = {
     "harnesses": ["vh_c05"],
     "level": "proof",
     "technique": "Lean 4 theorems that the models ignore masked / undefined samples (pairwise variogram definition over all samples = over the samples that count, for every lag and direction; statistics accumulation loop = loop over the filtered list; kriging system assembled from the compressed rows) + differential correspondence: every operation of the real library is run on a data base with masked samples / undefined values / undefined coordinates and on the physically reduced data base, the two answers are compared by the Lean driver; masked targets must keep the undefined value",
-    "level_text": "Partial proof: removal-invariance of the variogram definition, of the statistics loop and of the kriging system assembly are theorems of the models for all inputs; the library is compared with itself (masked vs removed) for kriging (unique, moving), cross-validation, variograms, statistics, covariance and drift matrices and conditional turning-bands simulation, with selection, undefined values, undefined coordinates and their mixture; masked targets are checked to stay undefined.",
+    "level_text": "Partial proof: removal-invariance of the variogram definition, of the statistics loop and of the kriging system assembly are theorems of the models for all inputs; the library is compared with itself (masked vs removed) for kriging (unique, moving), cross-validation, variograms, statistics, covariance and drift matrices, migration (point to grid with and without filling, point to point) and conditional turning-bands simulation, with selection, undefined values, undefined coordinates and their mixture; masked targets are checked to stay undefined.",
     "level_note": "Trusted: Lean kernel + 3 standard axioms. Two known findings (F70, F71) are reported on the current tree: undefined values still extend the simulation field, and undefined coordinates are not recognised by most operations.",
-    "rule": "random configurations (1-3D, 1-2 variables, 10-18 samples of which ~30% masked / undefined, 5 targets some masked, known mean or order 0-1 drift); per configuration: kriging unique+moving, xvalid, variogram (3-6 lags), 6 statistics, covariance and drift matrices, conditional simtub (2 simulations, same seed). distinct = distinct request line",
+    "rule": "random configurations (1-3D, 1-2 variables, 10-18 samples of which ~30% masked / undefined, 5 targets some masked, known mean or order 0-1 drift); per configuration: kriging unique+moving, xvalid, variogram (3-6 lags), 6 statistics, covariance and drift matrices, migration of the first variable onto a coarse grid and onto the targets, conditional simtub (2 simulations, same seed). distinct = distinct request line",
     "trivial": lambda line: False,
     "trusted_base": TB_COMMON,
     "uncovered": ["SPDE, Gibbs and other simulators", "grid-specific variogram algorithm", "heterotopic removal is covered by the C01 compress theorems and its correspondence, not re-run here"],
